@@ -335,7 +335,7 @@ type caseT struct {
 func Run(r *vf.Run) {
 	bin := r.BuildBin("staticcheck", "honnef.co/go/tools/cmd/staticcheck", false)
 	mo := newModel()
-	nCases := r.Pick(100, 1200)
+	nCases := r.Pick(100, 600)
 	formats := []string{"json", "text", "stylish", "sarif"}
 
 	// universes: per source variant, one run with all checks, ignored shown, no conf files
@@ -590,7 +590,7 @@ func Run(r *vf.Run) {
 	r.Set("registered_checks", len(mo.all))
 	r.Set("non_default_checks", len(mo.nonDefault))
 	r.Assume("the universe of problems of a source variant is what one `-checks all -show-ignored` run without configuration files reports; configuration files in this workload only set `checks`")
-	r.Finish(evals, nontriv, r.Pick(20, 200),
+	r.Finish(evals, nontriv, r.Pick(20, 100),
 		"each configuration = tree of staticcheck.conf files at 3 nested directory levels and one sibling directory (absent / empty list / inherit anywhere / globs / negations / unknown names / mixed case) x -checks x -fail x -show-ignored x source variant (ignored problem, useless directive); run in 4 output formats; problems, exit status and cross-format agreement compared with the reference model. evaluations = lint runs compared; non-trivial = configurations whose expected visible problem set is a proper non-empty subset of the universe")
 }
 
